@@ -410,6 +410,16 @@ func Execute(p *Program, opt *Options) *Outcome {
 			ei = len(p.Epochs) - 1 - k
 		}
 		ep := &p.Epochs[ei]
+		cold := p.Cold && k == 0 && !opt.RefOnly
+		var conc *epochRun
+		if cold {
+			// no calibration is possible without touching the library first:
+			// the schedule is planned with guessed operation lengths
+			if opt.Plan != nil {
+				opt.Plan(ei, nil)
+			}
+			conc = runEpochPass(p, ei, opt, true)
+		}
 		ref := runEpochPass(p, ei, opt, false)
 		steps := make([][]uint64, len(ep.Tasks))
 		for ti, rs := range ref.results {
@@ -426,10 +436,12 @@ func Execute(p *Program, opt *Options) *Outcome {
 			out.Violations = append(out.Violations, ref.viol...)
 			continue
 		}
-		if opt.Plan != nil {
-			opt.Plan(ei, steps)
+		if !cold {
+			if opt.Plan != nil {
+				opt.Plan(ei, steps)
+			}
+			conc = runEpochPass(p, ei, opt, true)
 		}
-		conc := runEpochPass(p, ei, opt, true)
 		out.Steps += conc.sim.Steps
 		out.Switches += conc.sim.Switches
 		out.Preempts += conc.sim.Preempts
